@@ -1240,6 +1240,61 @@ class PredEval:
         self.prog = prog
         self.memo = {}
         self._sw = {}
+        self._seq_index = {}
+        self._seq_keep = []
+        self._eq_shapes = {}
+
+    def _eq_closure_shape(self, ck):
+        """If closure `ck` is exactly `|row| row.<fields…> == <captured value i>` (one block, an equality of a projection of its argument with a
+        captured scalar, through copies and dereferences only): (field index tuple, capture index); else None.  Read from the closure's MIR."""
+        if ck in self._eq_shapes:
+            return self._eq_shapes[ck]
+        res = None
+        f = self.prog.fns.get(ck)
+        try:
+            m = f["mir"]
+            live = [b for b in m["blocks"] if not b.get("cleanup")]
+            if f is not None and m["arg_count"] == 2 and len(live) == 1 and live[0]["term"]["k"] == "return":
+                val = {1: ("up", ()), 2: ("row", ())}
+
+                def place(p):
+                    v = val.get(p["l"])
+                    if v is None:
+                        return None
+                    kind, proj = v
+                    for el in p["p"]:
+                        if el == "*":
+                            continue
+                        if isinstance(el, dict) and "f" in el:
+                            proj = proj + (el["f"],)
+                        else:
+                            return None
+                    return (kind, proj)
+                okc = True
+                for st in live[0]["stmts"]:
+                    if st["k"] != "assign" or st["place"]["p"]:
+                        okc = False
+                        break
+                    rv = st["rv"]
+                    if rv["k"] == "use" and rv["op"].get("k") in ("copy", "move"):
+                        val[st["place"]["l"]] = place(rv["op"]["place"])
+                    elif rv["k"] == "ref":
+                        val[st["place"]["l"]] = place(rv["place"])
+                    elif rv["k"] == "binop" and rv["op"] == "Eq" and rv["l"].get("k") in ("copy", "move") and rv["r"].get("k") in ("copy", "move"):
+                        a_, b_ = place(rv["l"]["place"]), place(rv["r"]["place"])
+                        val[st["place"]["l"]] = ("eq", a_, b_)
+                    else:
+                        okc = False
+                        break
+                r0 = val.get(0)
+                if okc and r0 and r0[0] == "eq" and r0[1] and r0[2]:
+                    sides = {r0[1][0]: r0[1][1], r0[2][0]: r0[2][1]}
+                    if set(sides) == {"row", "up"} and len(sides["up"]) == 1:
+                        res = (tuple(sides["row"]), sides["up"][0])
+        except Exception:
+            res = None
+        self._eq_shapes[ck] = res
+        return res
 
     def call(self, key, args, depth=0):
         mk = (key, tuple(args))
@@ -1349,6 +1404,40 @@ class PredEval:
                 or name.endswith("Iterator::cloned")) and len(av) == 1 and is_seq(av[0]):
             return ("iter", av[0][1])
         short = name.rsplit("::", 1)[-1]
+        if ("Iterator" in name) and short in ("find", "any", "position") and len(av) == 2 and is_seq(av[0]) \
+                and isinstance(av[1], tuple) and av[1] and av[1][0] == "closure":
+            # fast path: the closure is `|row| row.<proj> == <captured scalar>` — answered from an index of the constant table
+            shape = self._eq_closure_shape(av[1][1])
+            if shape is not None:
+                proj, up = shape
+                if up < len(av[1][2]) and isinstance(av[1][2][up], int):
+                    ik = (id(av[0][1]), proj)
+                    idx = self._seq_index.get(ik)
+                    if idx is None:
+                        idx = {}
+                        okidx = True
+                        for i, row in enumerate(av[0][1]):
+                            v = row
+                            for f_ in proj:
+                                if isinstance(v, tuple) and v and v[0] == "tuple" and f_ < len(v[1]):
+                                    v = v[1][f_]
+                                else:
+                                    okidx = False
+                                    break
+                            if not okidx or not isinstance(v, int):
+                                okidx = False
+                                break
+                            idx.setdefault(v, i)
+                        idx = idx if okidx else False
+                        self._seq_index[ik] = idx
+                        self._seq_keep.append(av[0][1])          # keep the table alive so that its id stays unique
+                    if idx is not False:
+                        hit = idx.get(int(av[1][2][up]))
+                        if short == "any":
+                            return hit is not None
+                        if hit is None:
+                            return ("none",)
+                        return ("some", av[0][1][hit]) if short == "find" else ("some", hit)
         if ("Iterator" in name) and short in ("find", "any", "all", "position", "find_map") and len(av) == 2 and is_seq(av[0]):
             for i, x in enumerate(av[0][1]):
                 r = call_clo(av[1], [x])
